@@ -593,6 +593,10 @@ bool Instance::configure_tx_txin() {
         }
     } else {
         // legacy
+        if (!scriptSig.HasValidOps() || !scriptPubKey.HasValidOps()) {
+            fprintf(stderr, "invalid script (%s)\n", scriptSig.HasValidOps() ? "scriptPubKey" : "scriptSig");
+            return false;
+        }
         sigver = SigVersion::BASE;
         script = scriptSig;
         successor_script = scriptPubKey;
